@@ -3,7 +3,7 @@
 # worktree, the changed files are handed to kvet as an in-memory overlay of /repo. (The stored detection record of a seeded
 # change is always produced by applying the patch to /repo itself: tools/store_seed.py, tools/refresh_seeds.py.)
 PATCH=$1; shift
-PROPS=${*:-$(cd /verif && bin/kvet list)}
+PROPS=${*:-$(cd /verif && ${KVET_BIN:-bin/kvet} list)}
 WT=$(mktemp -d /tmp/ovl-wt-XXXXXX); rmdir $WT
 git -C /repo worktree add -q --detach $WT HEAD || exit 2
 trap 'git -C /repo worktree remove --force $WT >/dev/null 2>&1; rm -f $OV' EXIT
@@ -21,7 +21,18 @@ for f in sorted(set(files)):
     rep["/repo/"+f] = (wt+"/"+f) if os.path.exists(wt+"/"+f) else ""
 json.dump({"Replace": rep}, open(ov,'w'))
 PY
+run1() {
+  p=$1
+  out=$(cd /verif && ${KVET_BIN:-bin/kvet} check -prop $p -no-evidence -overlay $OV 2>&1); rc=$?
+  if [ $rc -ne 0 ]; then echo "== $p rc=$rc"; echo "$out" | grep -E "^  (violated|unresolved)|load failed|^inline:|left alone|not expanded|at the call site|means another" | cut -c1-260; fi
+}
+TMPD=$(mktemp -d /tmp/ovl-out-XXXXXX)
+n=0
 for p in $PROPS; do
-  out=$(cd /verif && bin/kvet check -prop $p -no-evidence -overlay $OV 2>&1); rc=$?
-  if [ $rc -ne 0 ]; then echo "== $p rc=$rc"; echo "$out" | grep -E "^  (violated|unresolved)|load failed" | cut -c1-260; fi
+  run1 $p > $TMPD/$p.txt 2>&1 &
+  n=$((n+1))
+  if [ $((n % 10)) -eq 0 ]; then wait; fi
 done
+wait
+for p in $PROPS; do cat $TMPD/$p.txt; done
+rm -rf $TMPD
